@@ -20,7 +20,7 @@ add("C03", "mb2-check", "bounded-exhaustive + property-based differential agains
     "All walks over regions of up to 5 (6) payload words by DFS over size words, generated regions with tampered sizes, and next/clone/fresh histories checked against an index-into-the-walk model.",
     "in-process (no sandbox): the walk is bounds-checked; crashes are C01's business", "DESIGN.md §4 C03")
 add("C14", "mb2-check", "bounded-exhaustive enumeration + property-based testing against the precedence oracle; exhaustive 2^32 loop for rounding",
-    "Complete enumeration of slice length x misalignment x declared size for five header kinds, generated larger slices, and the rounding function over all 2^32 arguments (thorough, release).",
+    "Complete enumeration of slice length x misalignment x declared size for five header kinds (the header's other words varied: markers, zero, defined ids, correct values), generated slices to 70000 bytes with declared sizes around 4096..65536, and the rounding function over all 2^32 arguments (thorough, release).",
     "enumerated header fields of the header-crate headers hold defined values", "DESIGN.md §4 C14")
 
 add("C04", "mb2-check", "property-based differential against the reference decoder over encoder-built conformant regions",
@@ -45,28 +45,28 @@ add("C11", "mb2-check", "property-based differential against the reference decod
     "Valid headers with marker field bytes decoded through all accessors/getters/iterator and compared line by line with the reference model.",
     "enumerated fields in range by construction", "DESIGN.md §4 C11")
 add("C12", "mb2-check", "exhaustive subset enumeration + model-based call histories; round-trip through load",
-    "All 2^10 subsets x 2 architectures in every tier plus generated histories: alignment, load, magic, arch, length, checksum, tag multiset, terminating end tag.",
+    "All 2^10 subsets x 2 architectures and all single-tag headers with 0/8 field patterns (tails that look like an end tag) in every tier, plus generated histories with marker / special-value fields and request lists up to 8100 entries (headers to 32 KiB): alignment, load, magic, arch, length, checksum, tag multiset, terminating end tag.",
     "tag images captured from the supplied tags", "DESIGN.md §4 C12")
 add("C13", "mb2-check+sandbox", "bounded-exhaustive + property-based testing of find_header against a reference search",
-    "Every buffer length around 0 and around the 8192 window with magics planted at every boundary position and stored lengths at/over the end, plus generated buffers to 16 KiB, compared with the reference search by address and length.",
+    "Every buffer length around 0 and around the 8192 window with magics planted at every boundary position and stored lengths at/over the end, plus generated buffers to 16 KiB, optionally starting with an ELF/PE/a.out file identification, compared with the reference search by address and length.",
     "any Err variant is accepted where the statement says 'an error'", "DESIGN.md §4 C13")
 add("C15", "mb2-check+sandbox", "bounded-exhaustive enumeration over a family of user-defined tag types and all built-in kinds",
-    "27 harness-defined sized/DST tag types x every tag size 8..=96 through get_tag and cast, and all 22 built-in kinds x sizes, checking address, size_of_val and aliasing or a panic; exact fits must be accepted.",
+    "34 harness-defined sized/DST tag types x every tag size 8..=96 through get_tag, cast on the iterated tag, and ref_from_slice over the tag plus slack bytes followed by cast, and all 22 built-in kinds x sizes, checking address, size_of_val and aliasing or a panic; exact fits must be accepted.",
     "the family's BASE_SIZE/dst_len are truthful by construction", "DESIGN.md §4 C15")
 add("C16", "mb2-check", "bounded-exhaustive + property-based testing under a recording global allocator",
-    "Every composition of content length 0..=12 into 0..=4 slices x 4 targets and generated larger ones: one allocation of the exact layout, exact byte layout, one matching deallocation, clone identity; clone_dyn of all 11 DST kinds at content lengths 0..=40.",
+    "Every composition of content length 0..=12 into 0..=4 slices x 13 targets (6 generic structures, 7 tag kinds with a sized part) and generated larger ones up to ~64 KiB: one allocation of the exact layout, exact byte layout, one matching deallocation, clone identity; clone_dyn of all 11 DST kinds at content lengths 0..=40.",
     "single-threaded harness; the allocator log is armed around a single call", "DESIGN.md §4 C16")
 add("C17", "mb2-check", "bounded-exhaustive enumeration over small alphabets + property-based round-trip",
-    "All strings over a 4-character alphabet up to length 5 (6) through the three constructors, and all byte strings over a 6-byte alphabet up to length 5 (6) x every declared-size cut through the parsers, against the NUL/UTF-8 rule of the statement.",
+    "All strings over a 4-character alphabet up to length 5 (6) through the three constructors, and all byte strings over a 6-byte alphabet up to length 5 (6) x every declared-size cut through the parsers (as a single tag, and inside a loaded boot information through the typed getter), plus generated long multi-byte texts, against the NUL/UTF-8 rule of the statement.",
     "in-process: string parsing is slice-bounded safe code", "DESIGN.md §4 C17")
 add("C18", "mb2-check+sandbox", "bounded-exhaustive + property-based testing against the reference descriptor walk in a guard-page sandbox",
     "Descriptor size 0..=128 x version x count x length slack, and generated maps: valid combinations decode exactly with exact remaining-length reports; all others must panic before completing and never produce a misplaced descriptor.",
     "where the statement leaves the rejection point open (memory_areas() vs next()) both are accepted", "DESIGN.md §4 C18")
 add("C19", "mb2-check+sandbox", "bounded-exhaustive + property-based testing against the reference ELF32/ELF64 decoder in a guard-page sandbox",
-    "Entry count x entry size x table length x string-table index x raw type classes, and generated tables: fitting tags yield exactly the in-use entries with decoded fields and names; others must be rejected by a panic without reading outside.",
+    "Entry count x entry size x table length x string-table index (incl. reserved ELF indices) x raw type classes, and generated tables: fitting tags yield exactly the in-use entries with decoded fields and names; others must be rejected by a panic without reading outside.",
     "section names live in harness-owned memory the tag points at (documented external address)", "DESIGN.md §4 C19")
 add("C20", "mb2-check", "exhaustive 2^32 enumeration (thorough) / stratified sampling (quick) of conversion laws",
-    "All conversion, naming and equality laws for every 32-bit value, ELF type classification through the public iterator for all 2^32 raw values, all 256 framebuffer type bytes, both magics.",
+    "All conversion, naming and equality laws for every 32-bit value, ELF type classification through the public iterator (in forked children: a fault is a verdict) for all 2^32 raw values, all 256 framebuffer type bytes, both magics.",
     "the exhaustive sweep runs in the release build; the dev build runs the stratified sample", "DESIGN.md §4 C20")
 
 add("C08", "mb2-check+transcript", "differential testing of four separately compiled configurations over generated inputs",
